@@ -147,6 +147,8 @@ impl Meth {
         }
     }
 }
+/// min-max ranges of width exactly one away from zero (exhaustive stream)
+const UNIT_WIDTH: [Meth; 2] = [Meth::MinMax(-0.5, 0.5), Meth::MinMax(1.0, 2.0)];
 const METHODS: [Meth; 9] = [
     Meth::Std(true, true), Meth::Std(false, true), Meth::Std(true, false), Meth::Std(false, false),
     Meth::MinMax(0.0, 1.0), Meth::MinMax(-2.0, 3.0), Meth::MinMax(5.0, 10.0), Meth::MinMax(1.5, 1.5), Meth::MaxAbs,
@@ -387,11 +389,14 @@ fn gen_lin<F: Fl>(cx: &mut Ctx, r: &mut Sm64, maxn: usize, maxp: usize) {
         p2 = if p > 1 && r.chance(0.5) { p - 1 } else { p + 1 };
         for row in x2.iter_mut() { row.resize(p2, F::of(1.0)); }
     }
-    let m = match r.below(12) {
+    let m = match r.below(14) {
         0..=8 => METHODS[r.below(9) as usize],
         9 => Meth::MinMax(-1.0e3, 1.0e-3),
         10 => Meth::MinMax(3.0, -1.0),   // flipped range: rejected
-        _ => Meth::MinMax(-0.0, 0.0),
+        11 => Meth::MinMax(-0.0, 0.0),
+        // ranges of width exactly one that do not start at zero (the shift must not depend on the width)
+        12 => *r.pick(&[Meth::MinMax(-0.5, 0.5), Meth::MinMax(1.0, 2.0), Meth::MinMax(5.0, 6.0), Meth::MinMax(-1.0, 0.0)]),
+        _ => *r.pick(&[Meth::MinMax(-3.0, -3.0), Meth::MinMax(0.25, 1.25), Meth::MinMax(-1.0e6, 1.0e6)]),
     };
     let colmajor = r.chance(0.3);
     lin_case::<F>(cx, r, m, colmajor, x, p, x2, p2, "structured", &kinds);
@@ -649,8 +654,8 @@ fn whiten_case(cx: &mut Ctx, r: &mut Sm64, maxp: usize) {
     cx.out.bump(&format!("whiten_cov_dev_log2_{}", if dev == 0.0 { -99 } else { dev.log2().ceil() as i64 }));
     let delta = (2.0f64).powi(-20);
     let coq = format!(
-        "{{| c_id := {}; c_meta_in := {}; c_meta_out := {}; c_payload := Whiten {{| wc_p := {}; wc_X := {}; wc_mean := {}; wc_W := {}; wc_Y := {}; wc_X2 := {}; wc_Y2 := {}; wc_delta := {} |}} |}}",
-        cn(id), meta.coq(), meta_out.coq(), cn(p as u64), cmat64(&x), cvec64(&fitted.mean().to_vec()), cmat64(&rows(&fitted.transformation_matrix().to_owned())),
+        "{{| c_id := {}; c_meta_in := {}; c_meta_out := {}; c_payload := Whiten {{| wc_lay := {}; wc_p := {}; wc_X := {}; wc_mean := {}; wc_W := {}; wc_Y := {}; wc_X2 := {}; wc_Y2 := {}; wc_delta := {} |}} |}}",
+        cn(id), meta.coq(), meta_out.coq(), if colmajor { "ColMajor" } else { "RowMajor" }, cn(p as u64), cmat64(&x), cvec64(&fitted.mean().to_vec()), cmat64(&rows(&fitted.transformation_matrix().to_owned())),
         cmat64(&y), cmat64(&x2), cmat64(&y2), sf64(delta)
     );
     cx.out.case(id, &coq, &tr, &desc, Some(fnv_f64s(&x.concat(), which + 900)));
@@ -718,7 +723,7 @@ fn main() {
             for code in 0..3usize.pow(n as u32) {
                 let mut c = code;
                 let col: Vec<f64> = (0..n).map(|_| { let v = vals[c % 3]; c /= 3; v }).collect();
-                for m in METHODS.iter() {
+                for m in METHODS.iter().chain(UNIT_WIDTH.iter()) {
                     let x: Vec<Vec<f64>> = col.iter().map(|v| vec![*v]).collect();
                     let x2: Vec<Vec<f64>> = vals.iter().map(|v| vec![*v]).collect();
                     let mut rc = r.fork();   // one generator per case, so that --only replays a case exactly
@@ -763,5 +768,5 @@ fn main() {
         let mut r = rng.fork();
         if i % 10 < 6 { norm_case::<f64>(&mut cx, &mut r, 6, true); } else { norm_case::<f32>(&mut cx, &mut r, 6, true); }
     }
-    cx.out.finish("streams: fma self-test; exhaustive small (all columns over {-1,0,2}, n<=3 (4 thorough), 9 scaler variants); empty training data x variants x p; structured random linear scalers (14 column families incl. offset / badly scaled / constant / zero / tiny spread / eps boundary, f64+f32, row+column major, unseen data incl. copies, shifted rows and wrong widths); norm scalers (zero rows, single entries, 1e-9..1e9); norm scalers at extreme magnitudes, f64+f32 (12 row families: subnormal entries, one subnormal entry beside zeros incl. the values around 1/MAX, around the smallest normal number, near the largest finite number, l1 sum and squares next to their overflow / underflow borders, mixed magnitudes, border values; mixed with ordinary and zero rows); whiteners (3 methods, full rank, n>p). A case is non-trivial when its training data has at least two distinct rows; distinct = distinct (data, variant, dtype, layout) hashes");
+    cx.out.finish("streams: fma self-test; exhaustive small (all columns over {-1,0,2}, n<=3 (4 thorough), 9 scaler variants + 2 min-max ranges of width one away from zero); empty training data x variants x p; structured random linear scalers (14 column families incl. offset / badly scaled / constant / zero / tiny spread / eps boundary, f64+f32, row+column major, min-max ranges incl. width one / width zero / wide / flipped, unseen data incl. copies, shifted rows and wrong widths); norm scalers (zero rows, single entries, 1e-9..1e9); norm scalers at extreme magnitudes, f64+f32 (12 row families: subnormal entries, one subnormal entry beside zeros incl. the values around 1/MAX, around the smallest normal number, near the largest finite number, l1 sum and squares next to their overflow / underflow borders, mixed magnitudes, border values; mixed with ordinary and zero rows); whiteners (3 methods, full rank, n>p). A case is non-trivial when its training data has at least two distinct rows; distinct = distinct (data, variant, dtype, layout) hashes");
 }
